@@ -144,6 +144,9 @@ fn run_scene(case: &Value, idx: usize, rng: &mut Rng) -> Value {
         polygon.insert(1, point![(ox + 40.0 * U) as f32, oy as f32]);
     } else if redundant == 2 {
         polygon.push(point![ox as f32, (oy + 30.0 * U) as f32]);
+    } else if redundant == 3 {
+        // a gable: the wall is a triangle (large enough to hold the window)
+        polygon = vec![point![ox as f32, oy as f32], point![(ox + 160.0 * U) as f32, oy as f32], point![ox as f32, (oy + 120.0 * U) as f32]];
     }
     let wall = wall_of(
         "W",
